@@ -84,5 +84,9 @@ class Community(Attribute):
                         data=value
                     )
 
+        if len(community_hex) > 255:
+            # more than 63 communities: the attribute length needs two octets
+            return struct.pack('!B', cls.FLAG + AttributeFlag.EXTENDED_LENGTH) + struct.pack('!B', cls.ID) \
+                + struct.pack('!H', len(community_hex)) + community_hex
         return struct.pack('!B', cls.FLAG) + struct.pack('!B', cls.ID) \
             + struct.pack('!B', len(community_hex)) + community_hex
